@@ -23,7 +23,13 @@ Monitors (biomon/oracle/c09_monitor.py, c09_ref.py):
    Monte-Carlo the draws are a function of the individual only);
  * metamorphic: permuting blocks / rows inside blocks changes nothing;
  * a row variable outside the trajectory: refused, or at least not
-   order-dependent.
+   order-dependent;
+ * histories (mode 'history'): ONE BIOGEME object through seeded sequences of
+   simulate / calculate_likelihood / estimate (with and without bootstrap) /
+   quick_estimate; after every simulate the values keyed by id, after every
+   calculate_likelihood the log likelihood of the data set, and at every engine
+   calculation outside a bootstrap loop "the map inside the engine is the
+   database's current map" (snapshot of the last setDataMap per engine object).
 """
 from __future__ import annotations
 
@@ -42,7 +48,9 @@ RULE = (
     'logit probabilities and parameters) inside PanelLikelihoodTrajectory, half of them under MonteCarlo with 1-8 '
     'draws from deterministic generators encoding (individual, draw), 1-7 threads, parameter values different from '
     'the initial ones; plus non-contiguous tables, formulas with a row variable outside the trajectory, and directed '
-    'tables with 16-digit integer ids that collide in float64. A case is '
+    'tables with 16-digit integer ids that collide in float64; plus histories: one BIOGEME object (binary-logit panel '
+    'model, bounded parameters, optionally a random coefficient under MonteCarlo) taken through 3-7 operations among '
+    'simulate / calculate_likelihood / estimate / estimate(run_bootstrap) / quick_estimate, judged after every step. A case is '
     'non-trivial when the table has >= 2 rows and the reference evaluator accepts the trajectory value as regular and '
     'well-conditioned (float64 vs 80-bit agreement 1e-12); distinct = hash of (table as presented, ids, formula, '
     'parameters, draws)'
